@@ -81,7 +81,7 @@ func (p *Path) store(ptr value, v value) {
 		if x == nil {
 			panic(p.rtPanic("invalid memory address or nil pointer dereference"))
 		}
-		*x = copyVal(v)
+		storeInPlace(x, v)
 		return
 	case *eptr:
 		if x == nil {
@@ -688,3 +688,32 @@ func (p *Path) rangeIter(x value, t types.Type) iter {
 }
 
 var _ = sort.Ints
+
+// storeInPlace writes v into the cell, element-wise for aggregates so that interior pointers
+// (&s.f, &a[i]) taken earlier stay valid, as in Go.
+func storeInPlace(cell *value, v value) {
+	switch rhs := v.(type) {
+	case structure:
+		if lhs, ok := (*cell).(structure); ok && len(lhs) == len(rhs) {
+			for i := range lhs {
+				storeInPlace(&lhs[i], rhs[i])
+			}
+			return
+		}
+	case array:
+		if lhs, ok := (*cell).(array); ok && len(lhs) == len(rhs) {
+			if len(rhs) > 0 {
+				switch rhs[0].(type) {
+				case structure, array:
+					for i := range lhs {
+						storeInPlace(&lhs[i], rhs[i])
+					}
+					return
+				}
+			}
+			copy(lhs, rhs)
+			return
+		}
+	}
+	*cell = copyVal(v)
+}
